@@ -501,8 +501,8 @@ def run(rng, res, tier, shard, nshards):
                 r2 = Result('C01', 'shrink', 0, 0)
                 f2 = check_case(c, r2, direct_cap=120, count=False)
                 return f2 is not None and f2[0] == key
-            if 'history' in case:
-                small, runs = case, 0
+            if 'history' in case or key in res.viol_counts or len(res.viol_counts) >= 4:
+                small, runs = case, 0          # (only the first witness of a mechanism is shrunk)
             else:
                 small, runs = shrink_case(case, still, max_runs=60)
             res.violation(key, what, {'minimised': small, 'original': case, 'shrink_runs': runs})
